@@ -378,6 +378,7 @@ class Interp:
         self._seen_events = set()
         self.memo = {}
         self.diag = set()
+        self.stats = {}
         self.class_hints = class_hints or {}
         self.heap_changed = False
         self.entity_params = ()
@@ -1396,6 +1397,7 @@ class Interp:
             res = join(res, out)
         if not handled:
             # calling an unknown value (a parameter that is a callable...)
+            self.stats['calls_unknown_callable'] = self.stats.get('calls_unknown_callable', 0) + 1
             self.emit("call", e, frame, callee=("unknown", name), args=args, kwargs=kwargs)
             res = derived(fv, *args, *kwargs.values())
         return res
@@ -1561,6 +1563,7 @@ class Interp:
         return FRESH
 
     def call_func(self, fi, selfcls, self_av, args, kwargs, star_kw, frame, e, closure=None):
+        self.stats['calls_inlined_project'] = self.stats.get('calls_inlined_project', 0) + 1
         is_method = fi.cls is not None and not self.is_static(fi)
         self.emit("call", e, frame, callee=("func", fi), args=args, kwargs=kwargs,
                   self_av=self_av)
@@ -1683,6 +1686,7 @@ class Interp:
         return self.ext_method_call(recv, name, args, kwargs, frame, e, star_kw=star_kw)
 
     def ext_method_call(self, recv, name, args, kwargs, frame, e, via_super=False, star_kw=None):
+        self.stats['calls_external_or_unresolved_method'] = self.stats.get('calls_external_or_unresolved_method', 0) + 1
         self.emit("call", e, frame, callee=("extmeth", name), args=args, kwargs=kwargs, recv=recv,
                   star_kw=star_kw)
         allv = [recv] + list(args) + list(kwargs.values())
@@ -1761,6 +1765,7 @@ class Interp:
         return res.replace(arr=recv.arr and name in ("astype", "flatten", "mean", "sum", "dot", "copy"))
 
     def ext_func_call(self, dotted, args, kwargs, star_kw, frame, e, taint=FS()):
+        self.stats['calls_external_function'] = self.stats.get('calls_external_function', 0) + 1
         self.emit("call", e, frame, callee=("ext", dotted), args=args, kwargs=kwargs, star_kw=star_kw)
         allv = list(args) + list(kwargs.values())
         res = derived(*allv, extra=taint)
